@@ -137,7 +137,10 @@ inline FloatType ParseFloat(const char *nptr, char **endptr) {
       ++i;
       ++p;
     }
-    if (i == 3 || i == 8) {
+    if (i >= 3) {
+      if (i < 8) {
+        p -= (i - 3);  // "infin...": only "inf" belongs to the number
+      }
       if (endptr) {
         *endptr = (char *)p;  // NOLINT(*)
       }
@@ -176,13 +179,17 @@ inline FloatType ParseFloat(const char *nptr, char **endptr) {
 
   // Get digits before decimal point or exponent, if any.
   uint64_t predec;  // to store digits before decimal point
+  const char *digits_begin = p;
   for (predec = 0; isdigit(*p); ++p) {
     predec = predec * 10ULL + static_cast<uint64_t>(*p - '0');
   }
+  bool has_digits = (p != digits_begin);
   FloatType value = static_cast<FloatType>(predec);
 
   // Get digits after decimal point, if any.
-  if (*p == '.') {
+  // A '.' with no digit on either side is not part of a number.
+  if (*p == '.' && (has_digits || isdigit(p[1]))) {
+    has_digits = true;
     uint64_t pow10 = 1;
     uint64_t val2 = 0;
     int digit_cnt = 0;
@@ -198,8 +205,18 @@ inline FloatType ParseFloat(const char *nptr, char **endptr) {
     value += static_cast<FloatType>(static_cast<double>(val2) / static_cast<double>(pow10));
   }
 
+  if (!has_digits) {
+    // no conversion could be performed: like std::strtod, consume nothing
+    if (endptr) {
+      *endptr = (char *)nptr;  // NOLINT(*)
+    }
+    return static_cast<FloatType>(0);
+  }
+
   // Handle exponent, if any.
-  if ((*p == 'e') || (*p == 'E')) {
+  // The marker belongs to the number only if at least one digit follows it.
+  if (((*p == 'e') || (*p == 'E'))
+      && (isdigit(p[1]) || ((p[1] == '-' || p[1] == '+') && isdigit(p[2])))) {
     ++p;
     bool frac = false;
     FloatType scale = static_cast<FloatType>(1.0f);
